@@ -420,7 +420,7 @@ def gen_passive(rng, opts):
             elif what == "post":
                 g.add({"type": "PostSelectPhotons", "modes": modes, "params": {"photon_counts": {"$": "tuple", "v": [0 for _ in modes], "auto": True}}})
             else:
-                g.add({"type": "ImperfectParticleNumberMeasurement", "modes": modes, "params": {"detector_efficiency_matrix": {"$": "stochastic", "n": sum(occ) + 1, "seed": rng.randrange(100)}}})
+                g.add({"type": "ImperfectParticleNumberMeasurement", "modes": modes, "params": {"detector_efficiency_matrix": {"$": "stochastic", "n": max(sum(occ) + 1, 5), "seed": rng.randrange(100)}}})
             g.measured(modes, "post" if what == "post" else "pnm", sum(occ))
     term = rng.weighted([("pnm_all", 6), ("pnm_sub", 2), ("imperfect", 1 if opts.get("imperfect", True) else 0), ("none", 1 if opts.get("allow_no_terminal") else 0)])
     if term == "pnm_all":
@@ -428,7 +428,7 @@ def gen_passive(rng, opts):
     elif term == "pnm_sub":
         g.add({"type": "ParticleNumberMeasurement", "modes": g.pick_modes(rng.randrange(1, len(g.active) + 1)), "params": {}})
     elif term == "imperfect":
-        g.add({"type": "ImperfectParticleNumberMeasurement", "modes": None, "params": {"detector_efficiency_matrix": {"$": "stochastic", "n": sum(occ) + 1, "seed": rng.randrange(100)}}})
+        g.add({"type": "ImperfectParticleNumberMeasurement", "modes": None, "params": {"detector_efficiency_matrix": {"$": "stochastic", "n": max(sum(occ) + 1, 5), "seed": rng.randrange(100)}}})
     return {"sim": "PassiveSimulator", "d": d, "config": {}, "program": g.prog}
 
 
